@@ -70,14 +70,17 @@ X(e, t) == IF t = "L22" THEN e.x22 ELSE IF t = "L3" THEN e.x3 ELSE e.xoff
 HdrBad(e, f, want) == f \notin DOMAIN e.hdr \/ e.hdr[f] # want
 HdrPreds(e) ==
   LET ch == cfg.chans[e.c + 1]
-      geo == WhenD(HdrBad(e, "rows", cfg.rows), "C05_header", "rows") \cup WhenD(HdrBad(e, "cols", cfg.cols), "C05_header", "cols")
+      geo == WhenD(HdrBad(e, "rows", ch.nrows), "C05_header", "rows") \cup WhenD(HdrBad(e, "cols", ch.ncols), "C05_header", "cols")
              \cup WhenD(HdrBad(e, "row", ch.row), "C05_header", "row") \cup WhenD(HdrBad(e, "col", ch.col), "C05_header", "col")
              \cup WhenD(HdrBad(e, "subdiv", cfg.subdiv), "C05_header", "subdiv") \cup WhenD(HdrBad(e, "suboff", ch.suboff), "C05_header", "suboff")
              \cup WhenD("timebase_ppm" \notin DOMAIN e.hdr \/ e.hdr.timebase_ppm \notin {-1, 0, 1}, "C05_header", "timebase")
       lens == WhenD(HdrBad(e, "npre", cfg.npre), "C05_header", "npre") \cup WhenD(HdrBad(e, "nsamp", cfg.nsamp), "C05_header", "nsamp")
       ident == WhenD(HdrBad(e, "name", ch.name), "C05_header", "name") \cup WhenD(HdrBad(e, "channum", ch.channum), "C05_header", "channum")
                \cup WhenD(HdrBad(e, "chanidx", e.c), "C05_header", "chanidx") \cup WhenD(HdrBad(e, "nchan", cfg.nchan), "C05_header", "nchan")
-  IN IF e.t = "L22" THEN geo \cup lens \cup ident \cup WhenD(HdrBad(e, "fps", 1), "C05_header", "fps")
+      \* the identity and geometry a file header states are those of the status messages (C19)
+      c19 == {<<"C19_header_identity", x[2]>> : x \in (geo \cup (IF e.t = "L3" THEN {} ELSE ident))}
+  IN c19 \cup
+     IF e.t = "L22" THEN geo \cup lens \cup ident \cup WhenD(HdrBad(e, "fps", 1), "C05_header", "fps")
      ELSE IF e.t = "L3" THEN geo \cup WhenD(HdrBad(e, "format", "LJH3"), "C05_header", "format")
      ELSE geo \cup lens \cup ident
           \cup WhenD(HdrBad(e, "nbases", cfg.nbases), "C05_header", "nbases")
